@@ -203,6 +203,7 @@ type zstate = map[string]map[string]ztunnelclient.Held
 
 // zfresh connects a fresh wildcard ztunnel to server s and returns what it holds once quiescent.
 func zfresh(s *server, also ...*server) (zstate, bool) {
+	n0 := len(s.srv.Discovery.AllClients())
 	cl := newZtunnel("ztunnel-fresh", "10.60.0.9", "node-3", false, "")
 	cl.Connect(s.srv.Discovery, ztunnelclient.Fault{})
 	ok := quiesce(append([]*server{s}, also...)...)
@@ -217,7 +218,7 @@ func zfresh(s *server, also ...*server) (zstate, bool) {
 	}
 	st := cl.Snapshot()
 	cl.Disconnect(false)
-	return st, quiesce(append([]*server{s}, also...)...) && ok
+	return st, s.quiesceGone(n0, also...) && ok
 }
 
 // zfreshB builds a control plane from the final objects, connects a fresh wildcard ztunnel and tears it down.
